@@ -45,6 +45,80 @@ theorem rerefFold_perm (ref : String) {keys keys' : List String} (hp : keys.Perm
   intro s a b s' hR hab
   exact updateRef_comm s a b ref ref s' hR hab
 
+/-! ### `importNewRef`: the `$ref`s of the imported schema are rebased, ranging over the partial analyzer's `allRefs` -/
+
+/-- tokens of a key of `analyzeSchema("", sch, "/")`: `"#/"` is the schema itself -/
+def schemaKeyTokens (key : String) : List String := if key = "#/" then [] else keyTokens key
+
+theorem updateRefInSchema_ok_iff (sch : J) (key ref : String) (sch' : J) :
+    Flatten.updateRefInSchema sch key ref = .ok sch' ↔ updR ref .schemaPtr sch (schemaKeyTokens key) = some sch' := by
+  unfold Flatten.updateRefInSchema schemaKeyTokens
+  by_cases hk : key = "#/"
+  · simp [hk, updR, isSchemaKind]
+  · simp only [hk, if_false]
+    rw [updR_spec]
+    cases hw : walk .schemaPtr sch (keyTokens key) with
+    | none => simp
+    | some nk =>
+      obtain ⟨node, kind⟩ := nk
+      simp only
+      cases kind <;> simp [isSchemaKind] <;>
+        (cases setAt sch (keyTokens key) (node.set "$ref" (.str ref)) <;> simp)
+
+/-- one step of the rebasing loop of `importNewRef` -/
+def rebaseStep (g : String × String → Outcome String) (s : J) (kv : String × String) : Outcome J := do
+  let r ← g kv
+  match Flatten.updateRefInSchema s kv.1 r with
+  | .ok s' => pure s'
+  | _ => Outcome.err "cannot rewrite ref"
+
+theorem rebaseStep_ok (g : String × String → Outcome String) (s : J) (kv : String × String) (s' : J) :
+    rebaseStep g s kv = .ok s' ↔ ∃ r, g kv = .ok r ∧ updR r .schemaPtr s (schemaKeyTokens kv.1) = some s' := by
+  unfold rebaseStep
+  constructor
+  · intro h
+    obtain ⟨r, hr, h2⟩ := OutcomeM.bind_eq_ok.1 h
+    refine ⟨r, hr, ?_⟩
+    rw [← updateRefInSchema_ok_iff]
+    split at h2
+    · rename_i s'' hu; simp only [OutcomeM.pure_eq_ok] at h2; rw [hu, h2]
+    · cases h2
+  · rintro ⟨r, hr, hu⟩
+    rw [← updateRefInSchema_ok_iff] at hu
+    exact OutcomeM.bind_eq_ok.2 ⟨r, hr, by rw [hu]; rfl⟩
+
+/-- the keys of the imported schema designate different positions -/
+def SchemaKeysApart (a b : String × String) : Prop := PosDistinct (schemaKeyTokens a.1) (schemaKeyTokens b.1)
+
+theorem rebaseFold_perm (g : String × String → Outcome String) {l l' : List (String × String)} (hp : l.Perm l')
+    (hpw : l.Pairwise SchemaKeysApart) (s s' : J)
+    (h : l.foldlM (rebaseStep g) s = .ok s') : l'.foldlM (rebaseStep g) s = .ok s' := by
+  refine foldlM_perm_of_comm _ SchemaKeysApart (fun h => PosDistinct.symm h) ?_ hp s s' hpw h
+  intro d a b d' hR hab
+  obtain ⟨d1, h1, h2⟩ := OutcomeM.bind_eq_ok.1 hab
+  obtain ⟨ra, hra, hu1⟩ := (rebaseStep_ok g d a d1).1 h1
+  obtain ⟨rb, hrb, hu2⟩ := (rebaseStep_ok g d1 b d').1 h2
+  obtain ⟨d2, hu3, hu4⟩ := updR_comm ra rb _ _ _ _ _ _ hR hu1 hu2
+  exact OutcomeM.bind_eq_ok.2 ⟨d2, (rebaseStep_ok g d b d2).2 ⟨rb, hrb, hu3⟩, (rebaseStep_ok g d2 a d').2 ⟨ra, hra, hu4⟩⟩
+
+/-- the loop body of `importNewRef` in `Verif/Model/Flatten.lean` is `rebaseStep` -/
+theorem importRebase_step_eq (x : Flatten.Ext) (entryRef : String) (s : J) (kv : String × String) :
+    (do let rb ← Flatten.rebaseRef entryRef kv.2
+        let r ← Flatten.ask "mkRef" x.mkRef rb
+        match Flatten.updateRefInSchema s kv.1 r with
+        | .ok s' => pure s'
+        | _ => Outcome.err "cannot rewrite ref") =
+      rebaseStep (fun kv => do let rb ← Flatten.rebaseRef entryRef kv.2; Flatten.ask "mkRef" x.mkRef rb) s kv := by
+  unfold rebaseStep
+  dsimp only
+  cases h : Flatten.rebaseRef entryRef kv.2 with
+  | ok rb =>
+    show (Outcome.ok rb >>= _) = ((Outcome.ok rb >>= _) >>= _)
+    cases h2 : Flatten.ask "mkRef" x.mkRef rb <;> rfl
+  | err e => rfl
+  | panic w => rfl
+  | outOfFuel => rfl
+
 /-! ### `uniqifyName`: an existential test over the definitions map -/
 
 theorem knownFold_perm (x : Names.Ext) {defs defs' : List String} (hp : defs.Perm defs') (c : String) :
